@@ -144,18 +144,22 @@ def gen_params(ctx):
     n = 16 if ctx.quick else 160
     for k in range(n):
         double, fix = combos[k % len(combos)]
-        r = ratios[(k // len(combos) + k) % len(ratios)]
+        rnd, cidx = k // len(combos), k % len(combos)
+        r = ratios[(cidx + 2 * rnd + 1) % len(ratios)]   # (deterministic matrix: every combination meets a non-zero variance with and without matching sections within two rounds)
         force = {"nmatch": 0, "noise": float(rng.choice([0.002, 0.01, 0.05])), "nx": int(rng.integers(9, 15)), "nta": int(rng.choice([0, 0, 1]))}
         if force["nta"]:
             force["nx"] = int(rng.integers(13, 17))
-        if double and k % 2 == 1:   # double ended: matching sections with every fix combination
+        with_match = (rnd + cidx) % 2 == 1
+        if double and with_match:   # double ended: matching sections with every fix combination
             force["nmatch"] = int(rng.choice([1, 2]))
             force["nx"] = int(rng.integers(20, 28))
-        if not double and "alpha" not in fix.split("+") and k % 2 == 1:   # matching sections (the API refuses them together with fix_alpha)
+        if not double and "alpha" not in fix.split("+") and with_match:   # matching sections (the API refuses them together with fix_alpha)
             force["nmatch"] = int(rng.choice([1, 2]))
             force["nx"] = int(rng.integers(20, 28))
         if k % 5 == 0 and not double:
             force["nt"] = 1
+        elif "alpha" in fix.split("+"):
+            force["nt"] = int(rng.integers(2, 4))   # a per-location variance of a fixed alpha must meet several time steps (row order: time-major)
         p = calib.random_params(rng, double, quick=True, **force)
         p["fix"] = fix
         # supplied variance relative to the measurement variance of an observation, translated through the coefficient
